@@ -118,6 +118,14 @@ def build_funcs(ck, imms, quick):
                       locs="i64:r, i64:p", shape="br-m2")
                 g.add(f"br:{a}:{int(short)}", "ii_i", f"  {bn} @t, a, b\n  jmp @f\n@t:\n  mov r, 1\n  ret r\n@f:\n  mov r, 0\n  ret r",
                       shape="br-over-jmp")
+                # far targets (rel32 jump encodings are separate patterns from the rel8 ones)
+                fill = "".join(f"  mul r, r, a\n  add r, r, {k}\n  xor r, r, b\n" for k in range(3, 18))
+                ftail = f"  mov r, a\n{fill}  ursh r, r, 63\n  ursh r, r, 1\n  ret r\n@t:\n  mov r, 1\n  ret r"
+                g.add(f"br:{a}:{int(short)}", "ii_i", f"  {bn} @t, a, b\n" + ftail, shape="br far")
+                g.add(f"br:{a}:{int(short)}", "ii_i", f"  alloca p, 32\n  mov i64:8(p), a\n  mov x, i64:8(p)\n  {bn} @t, x, b\n" + ftail,
+                      locs="i64:r, i64:p, i64:x", shape="br-ld1 far")
+                g.add(f"br:{a}:{int(short)}", "ii_i", f"  alloca p, 32\n  mov i64:8(p), b\n  mov x, i64:8(p)\n  {bn} @t, a, x\n" + ftail,
+                      locs="i64:r, i64:p, i64:x", shape="br-ld2 far")
                 for im in imms[:4]:
                     sim = im - (1 << 64) if im >> 63 else im
                     g.add(f"br:{a}:{int(short)}", "i_i", f"  {bn} @t, a, {sim}\n  mov r, 0\n  ret r\n@t:\n  mov r, 1\n  ret r",
@@ -140,6 +148,27 @@ def build_funcs(ck, imms, quick):
             for what, bo, bno in flags:
                 g.add(f"ov:{o}:{short}:{what}", "ii_i", f"  {op} r, a, b\n  {bo} @t\n  mov r, 0\n  ret r\n@t:\n  mov r, 1\n  ret r", shape=bo)
                 g.add(f"ov:{o}:{short}:{what}:neg", "ii_i", f"  {op} r, a, b\n  {bno} @t\n  mov r, 1\n  ret r\n@t:\n  mov r, 0\n  ret r", shape=bno)
+    # bt / bf on registers and on values loaded from memory of every width, with near and far targets (the
+    # short and the long jump encodings are different patterns); overflow insns with a memory destination
+    pad = "".join(f"  mul r, r, a\n  add r, r, {k}\n  xor r, r, a\n" for k in range(3, 18))   # > 127 bytes of code
+    for kind in ("bt", "bf", "bts", "bfs"):
+        for far in (0, 1):
+            mid = pad if far else ""
+            # the filler must stay live at every level: its value is reduced to 0 by two shifts no pass folds
+            tailk = f"  mov r, a\n{mid}  ursh r, r, 63\n  ursh r, r, 1\n  ret r\n@t:\n  mov r, 1\n  ret r"
+            g.add(f"bt:{kind}", "i_i", f"  {kind} @t, a\n" + tailk, shape=f"{kind} r far{far}")
+            for t in ("i8", "u8", "i16", "u16", "i32", "u32", "i64"):
+                g.add(f"btld:{t}:{kind}", "i_i", f"  alloca p, 32\n  mov i64:8(p), a\n  mov x, {t}:8(p)\n  {kind} @t, x\n" + tailk,
+                      locs="i64:r, i64:p, i64:x", shape=f"{kind} ld {t} far{far}")
+    for o in ("add", "sub", "mul", "umul"):
+        for short in (0, 1):
+            op = o + "o" + ("s" if short else "")
+            flags = [("sov", "bo")] if o == "mul" else [("uov", "ubo")] if o == "umul" else [("sov", "bo"), ("uov", "ubo")]
+            mt = "i32" if short else "i64"
+            for what, bo in flags:
+                for af, pre in (("40(p)", ""), ("(p, x, 8)", "  mov x, 3\n"), ("16(p, x, 8)", "  mov x, 1\n")):
+                    g.add(f"ov:{o}:{short}:{what}", "ii_i", f"  alloca p, 64\n{pre}  {op} {mt}:{af}, a, b\n  {bo} @t\n  mov r, 0\n  ret r\n@t:\n  mov r, 1\n  ret r",
+                          locs="i64:r, i64:p, i64:x", shape=f"{bo} mem-dest {af}")
     # narrow loads / stores, several address forms
     for t in ("i8", "u8", "i16", "u16", "i32", "u32", "i64", "u64", "p"):
         forms = [("(p)", ""), ("8(p)", "  sub p, p, 8\n"), ("(p, x, 4)", "  mov x, 3\n  sub p, p, 12\n"),
